@@ -414,7 +414,7 @@ def rule_no_unordered_iter(ctx, rep):
         min_instances=8,
     )
     n_checked = 0
-    for fn in ctx.prog.functions.values():
+    for fn in ctx.prog.live_functions():
         for node, src, kind in unordered_iterations(ctx, fn):
             n_checked += 1
             st = unparse(src)
@@ -427,7 +427,7 @@ def rule_no_unordered_iter(ctx, rep):
             rep.check("R-NO-UNORDERED-ITER", fn.qname, fn.loc(node), ex is not None, f"{kind}:{st[:40]}",
                       f"order-sensitive {kind} over unordered `{st[:60]}`: the result depends on the hash seed / directory enumeration order",
                       exempt=ex)
-    for fn in ctx.prog.functions.values():
+    for fn in ctx.prog.live_functions():
         for node, src in partial_key_sorts(ctx, fn):
             n_checked += 1
             rep.check("R-NO-UNORDERED-ITER", fn.qname, fn.loc(node), False, f"partial-key-sort:{unparse(src)[:30]}",
